@@ -106,7 +106,7 @@ class Graph:
         if out in s.ddtext: return s.ddtext[out]
         acc = (b'generator' if e.generator else e.eval_command().encode()) + b'\0' + out.encode() + b'\0'
         for p in e.reads():
-            acc += p.encode() + b'\0' + files.get(p, '<missing>').encode('latin1') + b'\0'
+            acc += files.get(p, '<missing>').encode('latin1') + b'\0'
         return 'H:%016x' % fnv(acc)
     def clean_contents(s, sources):
         """contents of every buildable node after a from-scratch build of `sources` (dict)"""
@@ -156,7 +156,7 @@ def gen_graph(rnd, nedges, feat=None, wf_reads=True):
     f = dict(FEATURES); f.update(feat or {})
     g = Graph()
     nsrc = rnd.randrange(1, max(2, nedges) + 2)
-    for i in range(nsrc): g.sources['s%d' % i] = 'src%d.0' % i
+    for i in range(nsrc): g.sources['s%d' % i] = 'common' if rnd.random() < 0.3 else 'src%d.0' % i
     avail = list(g.sources)
     if rnd.random() < f['pools']:
         for p in range(rnd.randrange(1, 3)): g.pools['p%d' % p] = rnd.randrange(1, 4)
@@ -239,7 +239,7 @@ class Build:
     def __init__(s):
         s.events = []; s.files = {}; s.log = {}; s.deps = {}; s.exit = None; s.err = ''
         s.started = []; s.finished = []; s.uptodate = False; s.now = 0; s.kind = 'build'
-        s.raw = []
+        s.raw = []; s.snap = {}; s.ps = []
     def order(s, kind, out0):
         for i, ev in enumerate(s.events):
             if ev[0] == kind and ev[1] == out0: return i
@@ -268,6 +268,12 @@ def parse_trace(lines):
             elif k == 'exit': b.exit = int(w[2]); b.err = uh(w[3]) if len(w) > 3 else ''; b.events.append(('exit', b.exit, b.err))
             elif k == 'uptodate': b.uptodate = True
             else: b.events.append((k,) + tuple(w[2:]))
+        elif w[0] == 'snap':
+            if w[1] == 'edge':
+                kv = dict(x.split('=', 1) for x in w[3:])
+                b.snap[uh(w[2])] = kv
+        elif w[0] == 'ps':
+            b.raw.append(l); b.events.append(('ps',) + tuple(w[1:]))
         elif w[0] == 'st':
             b.raw.append(l); b.events.append(('st',) + tuple(w[1:]))
         elif w[0] == 'state':
